@@ -633,6 +633,31 @@ def r_labelsplit(prog, tier):
                       % (marker[0].lineno, unparse(cfg.nodes[(late_search or [c.id for c in late])[0]].ast)[:40],
                          cfg.nodes[(late_search or [c.id for c in late])[0]].lineno),
                       construct='split-order', line=marker[0].lineno))
+    # from the right a label ends in ...=GAP-COINDEX: the co-index is searched (and cut) before the gap index
+    def _search_of(sepname):
+        return [nid for nm in posvars for (nid, v_) in name_defs(f, nm) if isinstance(v_, ast.Call)
+                and isinstance(v_.func, ast.Attribute) and v_.func.attr in ('rfind', 'rindex') and v_.args
+                and sepname in unparse(v_.args[0])]
+    co_s, gap_s = _search_of('DEFAULT_COINDEX_SEPARATOR'), _search_of('DEFAULT_GAPPING_SEPARATOR')
+    if co_s and gap_s:
+        wrong = any(c_ in cfg.reach(g_) for g_ in gap_s for c_ in co_s) and not any(g_ in cfg.reach(c_) for g_ in gap_s for c_ in co_s)
+        obs.append(Ob('R-LABELSPLIT', f.fq, 'the co-index (last) is taken off before the gap index is searched', not wrong,
+                      'co-index search first' if not wrong else
+                      'the gap index is searched at line %d, before the co-index (line %d): in `NP=2-1` the text behind `=` is `2-1`, '
+                      'not a number, so the gap index stays in the category' % (cfg.nodes[gap_s[0]].lineno, cfg.nodes[co_s[0]].lineno),
+                      construct='split-order-idx', line=cfg.nodes[gap_s[0]].lineno))
+    # an index is kept as written: no round trip through int() (leading zeros)
+    for m_ in cfg.eval_nodes():
+        if m_.kind == 'stmt' and isinstance(m_.ast, ast.Assign) and isinstance(m_.ast.targets[0], ast.Name) \
+                and m_.ast.targets[0].id in ('coindex', 'gapindex') or (
+                m_.kind == 'stmt' and isinstance(m_.ast, ast.Assign) and isinstance(m_.ast.targets[0], ast.Name)
+                and any(isinstance(x_, ast.Subscript) and unparse(x_.value) == L for x_ in ast.walk(m_.ast.value))):
+            for x_ in ast.walk(m_.ast.value):
+                if isinstance(x_, ast.Call) and isinstance(x_.func, ast.Name) and x_.func.id == 'int' and any(
+                        isinstance(y_, ast.Subscript) and unparse(y_.value) == L for y_ in ast.walk(x_)):
+                    obs.append(Ob('R-LABELSPLIT', f.fq, 'a component is the text that stood in the label: `%s`' % unparse(m_.ast)[:50], False,
+                                  'the slice goes through int(): `01` comes back as `1`, the formatted label differs from the one parsed',
+                                  construct='split-int:' + unparse(m_.ast)[:40], line=m_.lineno))
     # indices must be digits; the search for co-index / gap index uses the formatting separators
     rets = [n for n in walk_own(f.node) if isinstance(n, ast.Return)]
     ob = rets[0].value.id if len(rets) == 1 and isinstance(rets[0].value, ast.Name) else None
@@ -748,6 +773,18 @@ def r_edge(prog, tier):
                               '`%s` under `%s` ends the loop over the root children: every child further right stays at the root, '
                               'although only this one is at the edge of the sentence' % (unparse(b.ast), conds[:80]),
                               construct='edge-leave:' + conds[:60], line=b.lineno))
+    # absorbing a skipped sibling moves the right neighbour BEHIND it: max of its token numbers, plus one
+    if n.loops:
+        for m in cfg.eval_nodes():
+            if m.kind == 'stmt' and isinstance(m.ast, ast.Assign) and isinstance(m.ast.targets[0], ast.Name) and len(m.loops) >= 2 \
+                    and m.loops[0] == n.loops[0] and isinstance(m.ast.value, ast.BinOp) and isinstance(m.ast.value.op, ast.Add) \
+                    and isinstance(m.ast.value.left, ast.Call) and unparse(m.ast.value.left.func) in ('min', 'max') \
+                    and unparse(m.ast.value.right) == '1':
+                which = unparse(m.ast.value.left.func)
+                obs.append(Ob('R-EDGE', f.fq, 'the right neighbour moves behind an absorbed sibling: `%s`' % unparse(m.ast)[:50],
+                              which == 'max', 'max(...) + 1' if which == 'max' else
+                              '`min(...) + 1` is the second token OF the absorbed sibling, not the token behind it: a sibling of two '
+                              'or more tokens leaves the neighbour inside itself', construct='edge-absorb', line=m.lineno))
     a0, a1 = call.args
     # tree_terms[t_l - 1], tree_terms[t_r - 1]
     idx = []
